@@ -162,7 +162,7 @@ func c19Body(o c19Opts) func() {
 			}))
 		}
 		if o.closeListener {
-			ths = append(ths, vrt.GoProc("listener-closer", 2, func() { ln.Close() }))
+			ths = append(ths, vrt.GoProc("listener-closer", 2, func() { vrt.AnyMoment(); ln.Close() }))
 		}
 		vrt.WaitThreads(ths...)
 		vrt.WaitIdle(vrt.Second)
@@ -193,28 +193,24 @@ func c19Body(o c19Opts) func() {
 		}
 		// close everything: server conns, listener, client sessions; afterwards every server session must be closed
 		var srvSessions []*Session
-		lst := ln.(*listener)
+		_ = ln.(*listener)
 		fin := vrt.GoProc("finish", 2, func() {
-			lst.mu.Lock()
-			for s := range lst.sessions {
-				srvSessions = append(srvSessions, s)
+			// every server session that still has its connection registered with the server's event loop (the listener's
+			// own table is emptied by Close, so it cannot be used to find them)
+			if d := p.router.d[2]; d != nil {
+				d.lock.Lock()
+				for _, fd := range vrt.SortedKeys(d.conns) {
+					if s, ok := d.conns[fd].callback.(*Session); ok {
+						srvSessions = append(srvSessions, s)
+					}
+				}
+				d.lock.Unlock()
 			}
-			lst.mu.Unlock()
 			for _, a := range accepted {
 				a.conn.Close()
 				a.conn.Close() // idempotent
 			}
-			// conns still sitting in the backlog belong to the listener's owner too
-			for {
-				select {
-				case c := <-lst.backlog:
-					c.Close()
-					continue
-				default:
-				}
-				break
-			}
-			ln.Close()
+			ln.Close() // conns that were accepted from a session but never handed out by Accept are the listener's to close
 			if _, err := ln.Accept(); err == nil {
 				vrt.Failf("accept-after-close", "Accept on a closed listener returned a conn")
 			}
@@ -233,7 +229,7 @@ func c19Body(o c19Opts) func() {
 		})
 		vrt.WaitThreads(fc)
 		vrt.WaitIdle(2 * vrt.Second)
-		vrt.Outcome(fmt.Sprintf("accepted=%d/%d accepterr=%d", len(accepted), total, acceptErrs))
+		vrt.Outcome(fmt.Sprintf("accepted=%d/%d accepterr=%d srv=%d closeL=%v", len(accepted), total, acceptErrs, len(srvSessions), o.closeListener))
 	}
 }
 
